@@ -2,6 +2,7 @@ package main
 
 import (
 	"fmt"
+	"os"
 	"math/big"
 	"sort"
 	"strings"
@@ -45,6 +46,8 @@ type appStream struct {
 	comet   *world.World // only its Comet field is used (real cmttypes.ValidatorSet fed with all updates)
 	strangers []*keys.Member
 	processed bool
+	twin      *appsim.Sim // second replica fed with the same blocks (profile app-det)
+	cfg       appsim.Config
 	started bool
 }
 
@@ -91,8 +94,12 @@ func (s *appStream) boot(r *tr.Rng) {
 	seed := r.U64()
 	nv := tr.Pick(r, 1, 2, 3, 3, 4)
 	nval := tr.Pick(r, 1, 2, 3, 4)
+	maxv := tr.Pick(r, 2, 3, 100)
+	if maxv < nval {
+		maxv = nval // a genesis whose active set exceeds MaxValidators is not a state the chain can reach
+	}
 	cfg := appsim.Config{ChainID: s.chain, Seed: seed, NumVoters: nv, NumValidators: nval,
-		MaxValidators: int64(tr.Pick(r, 2, 3, 100)), ElectingPeriod: time.Duration(tr.Pick(r, 30, 60, 600)) * time.Second,
+		MaxValidators: int64(maxv), ElectingPeriod: time.Duration(tr.Pick(r, 30, 60, 600)) * time.Second,
 		AcceptProposerTimeout: time.Duration(tr.Pick(r, 0, 10, 20)) * time.Second, BlockInterval: 5 * time.Second,
 		MempoolMaxTxs: -1, PruneEverything: true, RewardRemain: big.NewInt(1e18)}
 	sim, err := appsim.New(cfg)
@@ -100,6 +107,12 @@ func (s *appStream) boot(r *tr.Rng) {
 		panic(err)
 	}
 	s.sim = sim
+	s.cfg = cfg
+	if s.profile == "app-det" {
+		if s.twin, err = appsim.New(cfg); err != nil {
+			panic(err)
+		}
+	}
 	s.view()
 	s.now = sim.Time.UnixNano()
 	s.height = sim.Height
@@ -222,13 +235,21 @@ func (s *appStream) view() {
 	s.w.Net = &chaincfg.RegressionNetParams
 }
 
-func (s *appStream) emitDumps() {
+func (s *appStream) dumpLines() []bufLine {
 	s.view()
-	s.emit(tr.NewOp("dump", "dump.rel"), world.DumpRel(s.w.Ctx, s.w))
-	s.emit(tr.NewOp("dump", "dump.btc"), world.DumpBtc(s.w.Ctx, s.w))
-	s.emit(tr.NewOp("dump", "dump.lock"), world.DumpLock(s.w.Ctx, s.w))
 	head, beacon, _ := s.sim.EthHead()
-	s.emit(tr.NewOp("dump", "dump.goat"), fmt.Sprintf("goat head=%x|%d|%x beacon=%x", head.BlockHash, head.BlockNumber, head.ParentHash, beacon))
+	return []bufLine{
+		{tr.NewOp("dump", "dump.rel"), world.DumpRel(s.w.Ctx, s.w)},
+		{tr.NewOp("dump", "dump.btc"), world.DumpBtc(s.w.Ctx, s.w)},
+		{tr.NewOp("dump", "dump.lock"), world.DumpLock(s.w.Ctx, s.w)},
+		{tr.NewOp("dump", "dump.goat"), fmt.Sprintf("goat head=%x|%d|%x beacon=%x", head.BlockHash, head.BlockNumber, head.ParentHash, beacon)},
+	}
+}
+
+func (s *appStream) emitDumps() {
+	for _, l := range s.dumpLines() {
+		s.emit(l.op, l.res)
+	}
 }
 
 // ---------------------------------------------------------------------------------- blocks
@@ -398,6 +419,7 @@ func (s *appStream) genBlock(r *tr.Rng) {
 	s.blocks++
 	sim := s.sim
 	s.view()
+	preDumps := s.dumpLines()
 	height := sim.Height + 1
 	s.height = height
 	// time: mostly the block interval, sometimes jumps around the relayer deadlines
@@ -574,6 +596,7 @@ func (s *appStream) genBlock(r *tr.Rng) {
 	}
 
 	proposer := sim.ProposerAddr(proposerIdx)
+	nextTime := sim.NextTime()
 	if s.processed {
 		// a rejected proposal cancels its in-flight newPayload RPC: let the engine finish recording it
 		time.Sleep(3 * time.Millisecond)
@@ -593,7 +616,19 @@ func (s *appStream) genBlock(r *tr.Rng) {
 		}
 	}
 
+	// ---- determinism (C07): the same block on a second replica, re-executed after dropping the
+	// uncommitted state (restart between FinalizeBlock and Commit)
+	var detOp *tr.Op
+	if s.twin != nil {
+		detOp = s.runTwin(r, proposer, txs, votes, evidence, nextTime, newStatus, fcuStatus, resp, ferr, eng)
+	}
+
 	// ---- write the block as operations
+	if halt { // the state before a block that is not committed (C09: nothing of it persists)
+		for _, l := range preDumps {
+			s.emit(l.op, l.res)
+		}
+	}
 	s.emit(tr.NewOp("block", "a.blockstart", "height", height, "halt", tr.B(halt)), "ok")
 	maxage := fmt.Sprintf("%d|%d", s.lck.maxAgeD, s.lck.maxAgeB)
 	begin := tr.NewOp("begin", "hook.lock.begin", "height", height, "time", s.now, "votes", tr.StrList(vs), "maxage", maxage, "ev", tr.StrList(evs))
@@ -668,6 +703,9 @@ func (s *appStream) genBlock(r *tr.Rng) {
 		}
 	}
 	sim.Engine.ClearFaults()
+	if detOp != nil {
+		s.emit(detOp, "ok")
+	}
 	if dump || halt {
 		s.emitDumps()
 	}
@@ -742,14 +780,24 @@ func (s *appStream) genProcess(r *tr.Rng, proposerIdx int, ethTx []byte, ptxs []
 			time.Sleep(2 * time.Millisecond) // a rejection cancels the in-flight newPayload RPC: let it land
 		}
 		sim.Engine.ClearFaults()
-		o := tr.NewOp("process/"+cls, "a.process", "height", height, "kinds", tr.StrList(kinds), "anteok", tr.StrList(anteok),
+		honest := cls == "honest"
+		if pl != nil {
+			if _, _, l, derr := goattypes.DecodeRequests(pl.Requests); derr != nil || len(l.Gas) != 1 {
+				honest = false // the scripted execution layer misbehaved (fault class), not an honest build
+			}
+		}
+		o := tr.NewOp("process/"+cls, "a.process", "honest", tr.B(honest), "height", height, "kinds", tr.StrList(kinds), "anteok", tr.StrList(anteok),
 			"proposer", tr.Hex(msgProposer), "comet", tr.Hex(comet), "newstatus", newstatus)
 		payloadArgs(o, pl, tsfuture)
 		res := "ok"
 		if err != nil {
 			res = "err ;; abci-error"
 		} else if !acc {
-			res = "err ;; " + world.Classify(fmt.Errorf("%s", sim.RejectReason()))
+			c := world.Classify(fmt.Errorf("%s", sim.RejectReason()))
+			if strings.HasPrefix(c, "engine") {
+				c = "engine"
+			}
+			res = "err ;; " + c
 		}
 		s.emit(o, res)
 	}
@@ -979,4 +1027,122 @@ func (s *appStream) checkTx(p *pendingTx) {
 		res = "err ;; " + world.Classify(fmt.Errorf("%s", log))
 	}
 	s.emit(o, res)
+}
+
+
+// ---------------------------------------------------------------------------------- C07: replicas
+
+func fingerprint(resp *abci.ResponseFinalizeBlock, err error, eng []string) string {
+	if err != nil {
+		return "halt:" + world.Classify(err) + " eng=" + strings.Join(eng, ",")
+	}
+	var sb strings.Builder
+	fmt.Fprintf(&sb, "apphash=%x", resp.AppHash)
+	for i, t := range resp.TxResults {
+		fmt.Fprintf(&sb, " tx%d=%d/%d", i, t.Code, t.GasUsed)
+	}
+	var ups []string
+	for _, u := range resp.ValidatorUpdates {
+		ups = append(ups, fmt.Sprintf("%x|%d", u.PubKey.GetSecp256K1(), u.Power))
+	}
+	sort.Strings(ups)
+	fmt.Fprintf(&sb, " ups=%s eng=%s", strings.Join(ups, ","), strings.Join(eng, ","))
+	return sb.String()
+}
+
+func engLog(sim *appsim.Sim) []string {
+	var eng []string
+	for _, c := range sim.Engine.Calls() {
+		switch c.Method {
+		case appsim.MethodNewPayload:
+			eng = append(eng, fmt.Sprintf("np:%x", c.BlockHash[:]))
+		case appsim.MethodFCU:
+			eng = append(eng, fmt.Sprintf("fcu:%x/%x/%x", c.Head[:], c.Safe[:], c.Finalized[:]))
+		}
+	}
+	return eng
+}
+
+func (s *appStream) runTwin(r *tr.Rng, proposer []byte, txs [][]byte, votes []abci.VoteInfo, evidence []abci.Misbehavior, t time.Time,
+	newStatus, fcuStatus string, resp *abci.ResponseFinalizeBlock, ferr error, eng []string) *tr.Op {
+	tw := s.twin
+	inject := func() {
+		tw.Engine.ClearFaults()
+		if newStatus != "VALID" {
+			f := appsim.Fault{Method: appsim.MethodNewPayload, Status: newStatus}
+			if newStatus == "ERROR" {
+				f = appsim.Fault{Method: appsim.MethodNewPayload, Err: fmt.Errorf("engine down")}
+			}
+			tw.Engine.InjectFault(f)
+		}
+		if fcuStatus != "VALID" {
+			f := appsim.Fault{Method: appsim.MethodFCU, Status: fcuStatus}
+			if fcuStatus == "ERROR" {
+				f = appsim.Fault{Method: appsim.MethodFCU, Err: fmt.Errorf("engine down")}
+			}
+			tw.Engine.InjectFault(f)
+		}
+	}
+	run := func() (string, error) {
+		tw.SetNextTime(t)
+		inject()
+		tw.Engine.ResetCalls()
+		r2, e2 := tw.Finalize(proposer, txs, votes, evidence)
+		return fingerprint(r2, e2, engLog(tw)), e2
+	}
+	want := fingerprint(resp, ferr, eng)
+	got1, e1 := run()
+	same, detail := "1", "-"
+	if got1 != want {
+		same, detail = "0", "replica:"+diffTokens(want, got1)
+		if os.Getenv("VERIF_DEBUG") != "" && resp != nil {
+			fmt.Fprintf(os.Stderr, "DET primary log: %s\n", resp.TxResults[0].Log)
+		}
+	}
+	// crash between FinalizeBlock and Commit: drop the instance, reload from the DB, execute again
+	if err := tw.Restart(); err != nil {
+		panic(err)
+	}
+	got2, e2 := run()
+	if got2 != want && same == "1" {
+		same, detail = "0", "re-execution:"+diffTokens(want, got2)
+	}
+	if e2 == nil {
+		if err := tw.Commit(); err != nil {
+			panic(err)
+		}
+		if r.Chance(10) { // restart between blocks as well
+			if err := tw.Restart(); err != nil {
+				panic(err)
+			}
+		}
+	} else {
+		if err := tw.Restart(); err != nil {
+			panic(err)
+		}
+	}
+	_ = e1
+	tw.Engine.ClearFaults()
+	return tr.NewOp("det/same="+same, "a.det", "height", s.sim.Height+1, "same", same, "detail", detail)
+}
+
+func diffTokens(a, b string) string {
+	fa, fb := strings.Fields(a), strings.Fields(b)
+	for i := range fa {
+		if i >= len(fb) || fa[i] != fb[i] {
+			x := fa[i]
+			y := ""
+			if i < len(fb) {
+				y = fb[i]
+			}
+			if len(x) > 60 {
+				x = x[:60]
+			}
+			if len(y) > 60 {
+				y = y[:60]
+			}
+			return x + "!=" + y
+		}
+	}
+	return "length"
 }
